@@ -185,6 +185,7 @@ _EXTRA = {
  "C09": "Whole-transaction theorem (C09_emergency_withdrawal_transaction_moves_exactly_these_balances): every bank balance after an emergency withdrawal. Monitor mon_C09 (the owner receives between 10% and 100%; a regular withdrawal returns all).",
  "C12": "Transaction-level forms: the Simulation on the state before a swap transaction gives exactly the receiver's gain, the collector's gain and what leaves the pool manager (C12_quote_is_what_the_swap_transaction_pays); SimulateSwapOperations gives exactly what the route transaction sends the receiver (C12_route_quote_is_what_the_route_transaction_pays). Monitor mon_C12 on the implementation: a swap / route executed right after its quote pays the receiver the quoted amount, and a direct swap REPORTS (event attributes) exactly the quoted return, spread and fee amounts.",
  "C16": "Whole-transaction theorem (C16_creation_transaction_moves_exactly_these_balances): the attached funds go to the pool manager, out of which exactly the creation fee goes to the collector and exactly the token-factory fee is destroyed; no other balance changes.",
+ "C07": "NEW: the Rewards query equals what an immediate Claim pays for users staking ANY number of LP tokens, in every world reachable from genesis (C07_rewards_query_equals_claim_for_any_number_of_lp_tokens / _in_every_reachable_world; ClaimFrame.v: the claim's walk through the LP denoms is framed denom by denom - weight history and farm budgets of one denom do not influence the rewards of another; farm identifiers are unique by the custody invariant). This supersedes the single-LP restriction mentioned above.",
  "C06": "Over all histories: C06_payouts_never_exceed_funding_in_any_reachable_world (recorded payouts of every farm of every reachable world stay within its funding; with C05 no claim can draw on another farm's or a position's funds). Monitor mon_C06 on the implementation.",
 }
 for _k, _t in _EXTRA.items():
